@@ -113,8 +113,18 @@ def run(ctx):
             ctx.fail('decorated callables of a copied module are not profiled exactly, each copy for itself',
                      {'finding_class': None, 'copies_case': c, '[executions, reported hits] where they differ': diff, 'enable_count_after': r['count_after']})
     ctx.coverage['copied_module_cases'] = len(copies)
+    # the importable `profile` of the explicit mode as the outermost decorator over every kind (descriptor objects that are not callable themselves included)
+    globs = [{'calls': 2}, {'calls': 5}]
+    for c, r in zip(globs, run_worker(build, 'wrap_worker.py', {'globals': globs})['globals']):
+        if 'error' in r:
+            ctx.broken.append(('harness', r['error'][-1500:]))
+        elif r['executions'] != r['reported'] or r['count_after'] != 0:
+            diff = {k: [r['executions'].get(k, 0), r['reported'].get(k, 0)] for k in set(r['executions']) | set(r['reported']) if r['executions'].get(k, 0) != r['reported'].get(k, 0)}
+            ctx.fail('callables decorated with the enabled global `profile` object are not profiled exactly',
+                     {'finding_class': None, 'global_case': c, '[executions, reported hits] where they differ': diff, 'enable_count_after': r['count_after']})
+    ctx.coverage['global_decorator_cases'] = len(globs)
     ctx.coverage.update({
-        'evaluations': len(towers) + len(copies), 'distinct_nontrivial': len(nontrivial),
+        'evaluations': len(towers) + len(copies) + len(globs), 'distinct_nontrivial': len(nontrivial),
         'rule': 'all 8 property shapes (gaps included), every single-layer kind x {plain, generator, coroutine, async generator} function, callable '
                 'instances, + random towers of depth <= 4 with layers pre-wrapped by the same / other profilers; each used through its natural access '
                 '(call / get / set / delete) undecorated, decorated and decorated twice; non-trivial = at least two layers',
